@@ -535,3 +535,27 @@ func H_M6_lazy_discard() {
 		nd.Assert(vNodeUnknown((*VNode)(q.p), 4) == 0, "after DiscardUnknown no unknown field is re-emitted by Marshal")
 	}
 }
+
+// H_M6_lazy_longvarint: the lazy child holds one scalar field with a long varint (5, 9 or 10
+// bytes, continuation bits forced, value bits free), as its last field: the validator used for
+// lazy children (short-buffer and long-buffer varint ladders) and the eager decoder must agree.
+//
+//verif:props=C17,C29,C06 bounds=VNode;child={int32-or-sint64-field-with-a-5/9/10-byte-varint}+optional-trailing-scalar maxsteps=10000000 need=accepted|rejected|child_left_lazy
+func H_M6_lazy_longvarint() {
+	n := []int{5, 9, 10}[nd.Int(0, 2)]
+	v := nd.BytesN(n)
+	for i := 0; i < n-1; i++ {
+		nd.Assume(v[i] >= 0x80)
+	}
+	nd.Assume(v[n-1] < 0x80)
+	tag := byte(0x08)
+	if nd.Bool() {
+		tag = 0x10
+	}
+	body := append([]byte{tag}, v...)
+	b := append([]byte{0x4a, byte(len(body))}, body...)
+	if nd.Bool() {
+		b = append(b, 0x08, nd.Byte())
+	}
+	mLazyEager(b)
+}
